@@ -25,6 +25,20 @@ atexit.register(lambda: shutil.rmtree(DIR, ignore_errors=True))
 for f in FILES:
     with open(os.path.join(DIR, f + ".yaml"), "w") as fh:
         fh.write(f + "\n")          # the file's text is its own name: the loader stub maps it to that file's dictionary
+# a second layout: the same four files spread over sibling directories, imported through paths containing ".."
+TREE = {"root": "root.yaml", "a": "rig_a/a.yaml", "b": "rig_b/b.yaml", "c": "common/c.yaml"}
+TDIR = os.path.join(DIR, "tree")
+for f, rel in TREE.items():
+    os.makedirs(os.path.dirname(os.path.join(TDIR, rel)), exist_ok=True)
+    with open(os.path.join(TDIR, rel), "w") as fh:
+        fh.write(f + "\n")
+
+
+def import_text(src, dst):
+    """how file `src` spells its import of file `dst` in the current layout"""
+    if sh("layout", "flat") == "flat":
+        return dst + ".yaml"
+    return os.path.relpath(os.path.join(TDIR, TREE[dst]), os.path.dirname(os.path.join(TDIR, TREE[src])))
 SHARED = ("const", "struct", "msg", "signal")
 MSGID = ("msg", "signal")
 
@@ -69,7 +83,7 @@ def scenario(n1, v1, n2, v2):
     data = {f: {} for f in FILES}
     for (i, j), b in zip(EDGES, bits):
         if b:
-            data[FILES[i]].setdefault("imports", []).append(FILES[j] + ".yaml")
+            data[FILES[i]].setdefault("imports", []).append(import_text(FILES[i], FILES[j]))
     if sh("twice", 0) and data["root"].get("imports"):
         data["root"]["imports"].append(data["root"]["imports"][0])
     names = [POOL[n1], POOL[n2]]
@@ -91,7 +105,7 @@ def scenario(n1, v1, n2, v2):
     exc = None
     cwd = os.getcwd()
     try:
-        p.parse(pathlib.Path(DIR) / "root.yaml")
+        p.parse((pathlib.Path(DIR) / "root.yaml") if sh("layout", "flat") == "flat" else (pathlib.Path(TDIR) / "root.yaml"))
     except P.ParserError as e:
         exc = e
     except Exception as e:
